@@ -1,4 +1,4 @@
-From Coq Require Import List ZArith NArith Bool Lia.
+From Coq Require Import List ZArith NArith Bool Lia String.
 From Coq Require Import PrimFloat Uint63 SpecFloat FloatOps FloatAxioms.
 Import ListNotations.
 From DD Require Import Base.Sx Base.PyStr Base.Value Dist.DistModel.
